@@ -38,13 +38,17 @@ def nonvacuous(ctx):
     runs = (("client", "ExitWithoutSuccess", "C03_ClientAuthn"),
             # (a <success/> whose content is no payload taken for the signal)
             ("client", "MalformedSuccessCounts", "C03_ClientAuthn"),
+            # (a success flag that is only ever set: a premature <success/>, on which the mechanism went on, taken
+            # for the signal of the exchange that completes later on a <challenge/>)
+            ("client", "PrematureSuccessCounts", "C03_ClientAuthn"),
             ("server", "SkipPermission", "C03_ServerAuthn"),
             # (a negotiator that survives into the next session: TLC reports the invariant it breaks first - the
             # stale mechanism was not advertised in this session - or the action property itself)
             ("server", "KeepStateAcrossSessions", "C03_MechanismMutual|C03_SessionFresh"))
     def one(run):
         role, dev, inv = run
-        cfg = consts(3, 2, [dev], maxsess=2).replace('Roles = {"client","server"}', 'Roles = {"%s"}' % role) + MC_CFG
+        # (the premature <success/> needs three steps: start, the step that goes on, the step that completes)
+        cfg = consts(3, 3 if dev == "PrematureSuccessCounts" else 2, [dev], maxsess=1 if dev == "PrematureSuccessCounts" else 2).replace('Roles = {"client","server"}', 'Roles = {"%s"}' % role) + MC_CFG
         return ctx.tlc("MCSASL", cfg, timeout=300, name="MCSASL", workers=4)
     for (role, dev, inv), r in zip(runs, ac.parallel(one, runs)):
         if not set(inv.split("|")) & set(r.violated):
@@ -77,6 +81,16 @@ def selftest_binding(ctx, trs):
     i = has(m, "wrote", k="auth")[0]
     m[i]["m"] = "UNK"
     mutants.append(("client: mechanism attribute of <auth/> corrupted", m))
+    # element kind and mechanism step are independent: the same exchange with the kinds of the peer's two
+    # elements swapped (<success/> first, the mechanism goes on; it completes on a <challenge/>) authenticates nobody
+    two_el = [tr for tr in cl if [e["item"]["k"] for e in tr if e["ev"] == "peer"] == ["challenge", "success"]
+              and [e["more"] for e in tr if e["ev"] == "step"][-2:] == [True, False]]
+    if not two_el:
+        raise verif.Undecided("binding self-test: no authenticated client trace <challenge/> (more) <success/> (done) to corrupt")
+    m = [ac.strip(e) for e in two_el[0]]
+    for i in has(m, "peer"):
+        m[i] = dict(m[i], item=dict(m[i]["item"], k={"challenge": "success", "success": "challenge"}[m[i]["item"]["k"]]))
+    mutants.append(("client: kinds of the peer's two elements swapped (premature <success/>, completion on <challenge/>)", m))
     m = [dict(e) for e in s]
     i = has(m, "perm")[-1]
     m[i]["v"] = False
@@ -118,8 +132,21 @@ def describe(tr, hw):
         role = tr[0]["role"]
         succ = [x["item"] for x in tr if x["ev"] == "peer" and x["item"]["k"] == "success"]
         steps = [x for x in tr if x["ev"] == "step"]
+        # the peer's items and the mechanism's steps in order: a <success/> after which a step returned more
+        # was premature
+        late = False
+        for x in tr:
+            if x["ev"] == "peer":
+                late = x["item"]["k"] == "success"
+            elif x["ev"] == "step" and (x["more"] or x["err"]):
+                late = False
         if role == "client" and not succ:
             what = "client returned Authn although the peer never sent <success/>"
+        elif role == "client" and steps and not (steps[-1]["err"] or steps[-1]["more"]) and not late and any(
+                not ac.payload_is_bad(x["p"]) for x in succ):
+            what = ("client returned Authn although the only <success/> of the peer was premature (the mechanism went on after it) "
+                    "and nothing signalled success when or after the mechanism completed (peer sent: %s)" % (
+                        ", ".join(x["item"]["k"] for x in tr if x["ev"] == "peer")))
         elif role == "client" and steps and not (steps[-1]["err"] or steps[-1]["more"]):
             # (the mechanism completed and <success/> elements were seen: none of them is a success signal)
             what = "client returned Authn although every <success/> of the peer held something that is not a payload (%s): no success signal" % (
@@ -238,6 +265,7 @@ def run(ctx):
         "observed_server_authn_after_undecodable_request_payload": srv_bad,
         "observed_scram_client_steps_that_would_never_return": spins,
         "nonvacuity_runs_violating": nv, "binding_selftest_mutants_rejected": nself,
+        "element_kind_plans": "real mechanisms against a counterpart that runs the mechanism faithfully (right / wrong password) but puts its messages into elements of the kinds of a plan of SASL.tla (KindPlans): every assignment of <challenge/> / <success/> to the mechanism's messages (SCRAM-SHA-1, SCRAM-SHA-256: 2 messages; PLAIN: none) x 7 tails of further elements after the last message (nothing, success, failure, challenge, challenge success, success success, failure success) = %d runs; the oracle: a <success/> on which the mechanism goes on is premature and is not the receiver's signal for the exchange that completes later (CStep resets successSeen when the step returns more; deviation PrematureSuccessCounts)" % summ["extra"]["by_family"].get("real-kindplan/client", 0),
         "payload_shapes": "every <challenge/>, <success/> (and <failure/> text) sent to a client and every <auth/>, <response/> sent to a server with every payload shape of SASL.tla (%d shapes by length 0, '=', 1, 2, 3, 4, 5-9, 64, 65 and alphabet: base64 characters, padding in and out of place, characters outside the alphabet, blanks and line feeds; classified by the grammar of RFC 4648 in the spec) at every position of the exchange of scripted mechanisms that complete after 0, 1, 2 rounds (followed by every honest continuation), and in place of every element of a well-behaved real counterpart (client: PLAIN, ANONYMOUS, SCRAM-SHA-1; server: PLAIN, SCRAM-SHA-1)" % len(cls),
         "exhaustive": "peer sequences: every reachable prefix up to length %s (client) / %s (server) over the alphabets of SASL.tla; scripts: all of length <= 3" % (
             ("4", "3 (payload variants on the first offered mechanism only)") if quick
